@@ -4,6 +4,7 @@ package main
 
 import (
 	"fmt"
+	"go/constant"
 	"go/token"
 	"go/types"
 	"strings"
@@ -246,6 +247,36 @@ func checkC02(c *Check) {
 					return
 				}
 				okP, path := mustPrecede(m, func(x ssa.Instruction) bool { return x == ssa.Instruction(next) }, in)
+				if !okP {
+					// the one sound shortcut: the request path holds no '%' at all (every captured value is a
+					// piece of the path, and PathUnescape is the identity on %-free text)
+					fromPath := func(v ssa.Value) bool { return derivesFrom(v, vParam(m, 1), nil) && isStringT(v.Type()) }
+					isPct := func(v ssa.Value) bool {
+						cst, ok := strip(v).(*ssa.Const)
+						if !ok || cst.Value == nil {
+							return false
+						}
+						if cst.Value.Kind() == constant.String {
+							return constant.StringVal(cst.Value) == "%"
+						}
+						n, exact := constant.Int64Val(cst.Value)
+						return exact && n == '%'
+					}
+					idx := vOr(vCall("strings.IndexByte", fromPath, isPct), vCall("strings.Index", fromPath, isPct), vCall("strings.IndexRune", fromPath, isPct))
+					has := vOr(vCall("strings.Contains", fromPath, isPct), vCall("strings.ContainsRune", fromPath, isPct))
+					noPct := union(
+						edgesWhere(m, cCmp(token.EQL, idx, vConstInt(-1)), true),
+						edgesWhere(m, cCmp(token.LSS, idx, vConstInt(0)), true),
+						edgesWhere(m, cCmp(token.GEQ, idx, vConstInt(0)), false),
+						edgesWhere(m, cCmp(token.NEQ, idx, vConstInt(-1)), false),
+						edgesWhere(m, cBool(has), false),
+					)
+					if len(noPct) > 0 {
+						if in2, _ := (Query{Fn: m, Cut: noPct, Avoid: func(x ssa.Instruction) bool { return x == ssa.Instruction(next) }}).FromEntry(isInstr(in)); in2 == nil {
+							okP = true
+						}
+					}
+				}
 				c.Cond(okP, key+":behind-loop", p.Pos(in.Pos()), "a success return of Match is reached only through the decode loop", "Match can report a match without running the decode loop: captured values reach the handlers undecoded "+path)
 			})
 		}
@@ -312,14 +343,36 @@ func checkC02(c *Check) {
 			leaf := h.Call.Value
 			pm := ci.Common().Args[2]
 			key := p.FuncKey(sh) + ":route-param"
-			found := false
-			for _, r := range referrers(strip(pm)) {
-				if mu, ok := r.(*ssa.MapUpdate); ok && strip(mu.Map) == strip(pm) && vConstStr("route")(mu.Key) {
-					if vCall("(route.Leaf).Route", vIs(leaf))(mu.Value) {
-						if ok2, _ := mustPrecede(sh, isInstr(mu), in); ok2 {
-							found = true
+			routeSet := func(pm, leaf ssa.Value, before ssa.Instruction) bool {
+				for _, r := range referrers(strip(pm)) {
+					if mu, ok := r.(*ssa.MapUpdate); ok && strip(mu.Map) == strip(pm) && vConstStr("route")(mu.Key) {
+						if vCall("(route.Leaf).Route", vIs(leaf))(mu.Value) {
+							if ok2, _ := mustPrecede(sh, isInstr(mu), before); ok2 {
+								return true
+							}
 						}
 					}
+				}
+				return false
+			}
+			found := routeSet(pm, leaf, in)
+			// leaf and params merged from the branches of a lookup step: pairwise, edge by edge
+			if lp, isLP := strip(leaf).(*ssa.Phi); isLP && !found {
+				if pp, isPP := strip(pm).(*ssa.Phi); isPP && pp.Block() == lp.Block() && len(pp.Edges) == len(lp.Edges) {
+					all := true
+					for i := range lp.Edges {
+						if vNil(lp.Edges[i]) {
+							continue // no leaf on this edge: whether it can be dispatched is C07.R1's question
+						}
+						pred := lp.Block().Preds[i]
+						if len(pred.Instrs) == 0 || !routeSet(pp.Edges[i], lp.Edges[i], pred.Instrs[len(pred.Instrs)-1]) {
+							all = false
+						} else {
+							n++ // one dispatch path per merged branch
+							c.OK(fmt.Sprintf("%s:branch-%d", key, i), p.Pos(in.Pos()), "params[\"route\"] = leaf.Route() of the leaf of this branch, set before the branches merge", 1)
+						}
+					}
+					found = all
 				}
 			}
 			c.Cond(found, key, p.Pos(in.Pos()), "params[\"route\"] = leaf.Route() of the dispatched leaf, set before the handler runs", "a dispatch path does not set params[\"route\"] to the dispatched leaf's own route text before running the handler")
